@@ -1,9 +1,131 @@
-from tcv.core import Result
+"""C10 part B - the same resolution answers through real chains and a dependant's input registry."""
+import itertools
+
+from tcv import names as N
+from tcv import scratch, worlds
+from tcv.core import Result, Violation
+from tcv.pool import pmap
+
+NS = ['', 'n', 'xn']
+GROUPS = ['', 'g', 'xg']
+NAMES = ['a', 'xa']
+UNIVERSE = [N.make(ns, g, n) for ns in NS for g in GROUPS for n in NAMES]
+QUERIES = sorted({q for f in UNIVERSE for q in N.forms(f)}, key=lambda s: (len(s), s))
+
+
+def world_for(name_set, reverse=False):
+    tasks = {}
+    by_ns = {}
+    for full in name_set:
+        ns, g, n = N.parse(full)
+        key = 'C' + ''.join(x.capitalize() for x in g) + n.capitalize()
+        tasks[key] = {'name': n, 'group': ':'.join(g) or None, 'params': [], 'inputs': [], 'data': 'json'}
+        by_ns.setdefault('::'.join(ns), []).append(key)
+    tasks['ZDep'] = {'name': 'dep', 'group': None, 'params': [], 'inputs': [{'how': 'name', 'ref': f} for f in (reversed(name_set) if reverse else name_set)], 'data': 'json'}
+    cfgs = {}
+    uses = []
+    for ns, keys in sorted(by_ns.items(), reverse=reverse):
+        if ns:
+            cfgs[f'cfg_{ns}'] = {'medium': 'json', 'tasks': list(reversed(keys)) if reverse else keys, 'values': {}}
+            uses.append({'config': f'cfg_{ns}', 'as': ns})
+    root_keys = by_ns.get('', [])
+    cfgs['top'] = {'medium': 'json', 'tasks': (['ZDep'] + root_keys) if reverse else (root_keys + ['ZDep']), 'values': {}, 'uses': uses}
+    return {'name': 'names', 'tasks': tasks, 'configs': cfgs, 'root': 'top', 'variants': {'v': []}}
+
+
+def check_set(name_set):
+    out = []
+    evals = 0
+    answers = {}
+    for reverse in (False, True):
+        desc = world_for(name_set, reverse)
+        root = scratch.fresh('c10')
+        w = worlds.World(desc, root)
+        try:
+            try:
+                ch = w.chain('v', base_dir=root + '/data')
+            except Exception as e:  # noqa
+                # a dependant naming all members must be constructible: every member is addressed by its full name
+                out.append(Violation('chain: dependant addressing its inputs by full name cannot be built', f'names {list(name_set)} (reverse={reverse}): {type(e).__name__}: {e}',
+                                     {'kind': 'chain', 'names': list(name_set)}))
+                continue
+            all_names = list(name_set) + ['dep']
+            dep = ch.tasks['dep']
+            for q in QUERIES + ['dep']:
+                for where, names in (('chain', all_names), ('inputs', list(name_set))):
+                    exp = N.resolve(q, names)
+                    evals += 1
+                    got = _access(ch, dep, where, q)
+                    answers.setdefault((where, q), set()).add(repr(got))
+                    if exp == N.UNSPECIFIED:
+                        continue
+                    ok_target = (isinstance(got['item'], tuple) and exp in got['item']) if exp not in (N.AMBIGUOUS, N.NOTFOUND) else got['item'] in ('KeyError', None)
+                    ok_in = got['in'] == (exp not in (N.AMBIGUOUS, N.NOTFOUND))
+                    if not ok_target or not ok_in or got['get'] != got['item'] or (got.get('attr', got['item']) != got['item']):
+                        out.append(Violation(f'{where}: name resolution through the {"chain" if where == "chain" else "input registry"} differs from the reference',
+                                             f'tasks {all_names if where == "chain" else list(name_set)}, query {q!r}: [] -> {got["item"]}, in -> {got["in"]}, get -> {got["get"]}, attr -> {got.get("attr")}; reference {exp}',
+                                             {'kind': 'chain', 'names': list(name_set)}))
+        finally:
+            w.dispose()
+            scratch.drop(root)
+    for (where, q), s in answers.items():
+        if len(s) > 1:
+            out.append(Violation(f'{where}: resolution depends on declaration order', f'tasks {list(name_set)} query {q!r}: {s}', {'kind': 'chain', 'names': list(name_set)}))
+    return evals, out
+
+
+def _access(ch, dep, where, q):
+    """answers as NAMES: a returned task object is reported as the set of names under which the chain holds that very
+    object (identical computations are legitimately one shared object carrying one of its names)"""
+    obj = ch if where == 'chain' else dep.input_tasks
+    table = ch.tasks if where == 'chain' else {k: v for k, v in dep.input_tasks.items()}
+
+    def names_of(t):
+        if t is None:
+            return None
+        return tuple(sorted(k for k, v in table.items() if v is t)) or ('<unknown object>',)
+    r = {}
+    for how in ('item', 'get') + (('attr',) if where == 'chain' and q.isidentifier() else ()):
+        try:
+            t = obj[q] if how == 'item' else (obj.get(q) if how == 'get' else getattr(ch, q))
+            r[how] = names_of(t)
+        except (KeyError, AttributeError) as e:
+            r[how] = 'KeyError' if isinstance(e, KeyError) or how == 'attr' else type(e).__name__
+        except Exception as e:  # noqa
+            r[how] = type(e).__name__
+    try:
+        r['in'] = q in obj
+    except Exception as e:  # noqa
+        r['in'] = type(e).__name__
+    return r
+
+
+def _job(sets):
+    import tcv
+
+    tcv.quiet_library()
+    res = Result()
+    for s in sets:
+        ev, vs = check_set(s)
+        res.add('evaluations', ev)
+        res.add('transitions', ev)
+        res.add('chain_worlds')
+        res.violations.extend(vs[:2])
+    return res
 
 
 def run(tier, seed):
-    return Result()
+    sets = [s for k in (1, 2) for s in itertools.combinations(UNIVERSE, k)]
+    triples = list(itertools.combinations(UNIVERSE, 3))
+    sets += triples if tier != 'quick' else triples[seed % 7::7]
+    res = Result()
+    n = 64
+    for r in pmap(_job, [sets[i::n] for i in range(n)]):
+        res.merge(r)
+    res.coverage['chain_leg'] = {'name_sets': len(sets), 'universe': len(UNIVERSE), 'queries': len(QUERIES) + 1, 'triples_complete': tier != 'quick'}
+    return res
 
 
 def replay(case):
-    return []
+    ev, vs = check_set(tuple(case['names']))
+    return vs
